@@ -42,8 +42,11 @@ def gen(rng, broker, tier):
              "conv": rng.choice(["basic", "pydantic", "default"]), "timeout_s": 600}
         if rng.random() < 0.25:
             j["by_s"] = rng.choice([1, 2, 30])
+        if kind in ("return", "raise", "bad-return") and rng.random() < 0.3:
+            # time limits of a day and more, and with a fractional part (bodies stay well inside them)
+            j["timeout_s"] = rng.choice([86_400, 86_400 * 3 + 1, 1.9, 2.5])
         if kind == "return":
-            j["beh"] = [{"do": "return", "dur_us": rng.choice([0, 1000, 50_000])}]
+            j["beh"] = [{"do": "return", "dur_us": rng.choice([0, 1000, 50_000] + ([1_200_000] if j["timeout_s"] in (1.9, 2.5) else []))}]
         elif kind == "raise":
             fails = rng.randint(1, 5)
             j["beh"] = [{"do": "raise", "exc": rng.choice(list(workload.EXC)), "dur_us": rng.choice([0, 500, 20_000])}
